@@ -1,4 +1,5 @@
 import GmQuic.Props.C12
+import GmQuic.Lemmas.FlowRecver
 /-!
 C12, closing a hypothesis: the endpoint theorems about final size (`deliver_final_size`, `deliver_reset_final_size`) and the
 C12 ↔ C11 link (`c12_reset_is_c11_reset`) assume that the receiving half found in the input set is not in the `done` phase —
@@ -208,6 +209,181 @@ theorem reachable_stream_final_size {role : Role} {lb lu pb pu : Nat} {win : Win
     (hv : streamFinalSizeError h.buf.largest (knownFinal h) off len fin = true) :
     (e0.run ops).deliver ms .stream s off len fin = (e0.run ops, .err .finalSize) :=
   deliver_final_size _ ms s off len fin h hl (reset_never_unreachable h0 ops s 0 h hl).1 hv
+
+/-! ### any per-half invariant of C11's receiving half lifts to the whole endpoint
+
+C11 proves its receiving-side facts for ONE `RecvHalf` driven by STREAM frames and reads.  C12's endpoint holds a set of
+them, created lazily (implicit opens, local opens), fed through the direction / limit gate and removed on completion or
+reset.  `InAll P`: every half in the input set satisfies `P`.  For any `P` that holds of a fresh half and is kept by
+`RecvHalf.rx true`, `InAll P` is an invariant of EVERY endpoint operation. -/
+
+def InAll (P : RecvHalf → Prop) (e : Endpoint) : Prop := ∀ p ∈ e.inputs, P p.2
+
+theorem inall_of_inputs {P : RecvHalf → Prop} {e e' : Endpoint} (h : InAll P e) (hi : e'.inputs = e.inputs) :
+    InAll P e' := by
+  intro p hp; rw [hi] at hp; exact h p hp
+
+section lift
+variable {P : RecvHalf → Prop} (hmk : ∀ w, P (RecvHalf.mk0 w))
+  (hrx : ∀ (h : RecvHalf) (off len : Nat) (fin : Bool), P h → P (h.rx true off len fin).1)
+include hmk
+
+theorem acceptSid_all (e : Endpoint) (s : Nat) (h : InAll P e) (r : Endpoint × List (Dir × Nat) × Bool)
+    (hr : e.acceptSid s = some r) : InAll P r.1 := by
+  unfold Endpoint.acceptSid at hr
+  cases ho : e.rem.step std (.accept s) with
+  | mk r' o =>
+    rw [ho] at hr
+    cases o with
+    | «new» a b f =>
+      simp only [Option.some.injEq] at hr
+      subst hr
+      intro p hp
+      cases hd : sidDir s <;> simp only [hd] at hp <;>
+        (rcases List.mem_append.mp hp with hp1 | hp1
+         · exact h p hp1
+         · obtain ⟨i, _, rfl⟩ := List.mem_map.mp hp1
+           exact hmk _)
+    | _ =>
+      first
+        | (simp only [Option.some.injEq] at hr; subst hr; exact h)
+        | (simp only [reduceCtorEq] at hr)
+
+include hrx
+
+omit hmk in
+theorem deliver_all (e : Endpoint) (ms : List (Dir × Nat)) (k : FrameKind) (s a b : Nat) (fin : Bool)
+    (h : InAll P e) : InAll P (e.deliver ms k s a b fin).1 := by
+  unfold Endpoint.deliver
+  cases k with
+  | stream =>
+    simp only []
+    split
+    · exact h
+    · rename_i hh hl
+      obtain ⟨p0, hp0, rfl⟩ := lookup_mem hl
+      have hP := hrx p0.2 a b fin (h p0 hp0)
+      split
+      · exact h
+      · exact h
+      · split
+        · split
+          all_goals
+            intro p hp
+            rw [shutRecv_inputs] at hp
+            exact h p (List.mem_filter.mp hp).1
+        · intro p hp
+          obtain ⟨x, hx, rfl⟩ := List.mem_map.mp hp
+          split
+          · exact hP
+          · exact h x hx
+  | resetStream =>
+    simp only []
+    split
+    · exact h
+    · split
+      · exact h
+      · exact h
+      · exact h
+      · split
+        all_goals
+          intro p hp
+          rw [shutRecv_inputs] at hp
+          exact h p (List.mem_filter.mp hp).1
+  | stopSending => exact h
+  | maxStreamData => exact h
+  | streamDataBlocked => exact h
+
+theorem Endpoint.all_step (e : Endpoint) (op : EOp) (h : InAll P e) : InAll P (e.step op).1 := by
+  cases op with
+  | acceptBi =>
+    apply inall_of_inputs h; simp only [Endpoint.step]; repeat' split
+    all_goals rfl
+  | acceptUni =>
+    apply inall_of_inputs h; simp only [Endpoint.step]; repeat' split
+    all_goals rfl
+  | rparams =>
+    apply inall_of_inputs h; simp only [Endpoint.step]; split
+    · rfl
+    · rw [becomeReady_inputs]
+  | rscid =>
+    apply inall_of_inputs h; simp only [Endpoint.step]; split
+    · rfl
+    · rw [becomeReady_inputs]
+  | open_ d =>
+    simp only [Endpoint.step]
+    split
+    · exact h
+    · cases hs : e.loc.step (.alloc d) with
+      | mk l' o =>
+        cases o with
+        | sid s =>
+          cases d with
+          | bi =>
+            intro p hp
+            rcases List.mem_append.mp hp with hp1 | hp1
+            · exact h p hp1
+            · simp only [List.mem_singleton] at hp1; subst hp1; exact hmk _
+          | uni => exact h
+        | _ => exact h
+  | frame k s a b fin =>
+    simp only [Endpoint.step]
+    split
+    · exact h
+    · split
+      · split
+        · exact h
+        · split
+          · exact h
+          · exact deliver_all hrx e [] k s a b fin h
+      · exact deliver_all hrx e [] k s a b fin h
+    · split
+      · exact h
+      · rename_i e1 _ heq; exact acceptSid_all hmk e s h _ heq
+      · rename_i e1 ms heq; exact deliver_all hrx e1 ms k s a b fin (acceptSid_all hmk e s h _ heq)
+  | maxStreams d v => exact h
+  | streamsBlocked d v =>
+    apply inall_of_inputs h; simp only [Endpoint.step]; repeat' split
+    all_goals rfl
+  | drain => exact h
+
+theorem Endpoint.all_run (e : Endpoint) (ops : List EOp) (h : InAll P e) : InAll P (e.run ops) := by
+  unfold Endpoint.run
+  induction ops generalizing e with
+  | nil => exact h
+  | cons op t ih => exact ih _ (Endpoint.all_step hmk hrx e op h)
+
+end lift
+
+/-- **At the endpoint, for every history: no stream ever holds data beyond the limit advertised for it.**  For every history
+of operations (frames of all kinds on all streams, implicit and local opens, accept polls, late parameters, MAX_STREAMS,
+STREAMS_BLOCKED) from a fresh endpoint and every stream `s` still in the input set: the reassembly buffer is structurally
+sound and its largest offset is within `max_stream_data` (C11's `RecvHalf.Bnd`, proved there for ONE half, here for the whole
+`DataStreams`). -/
+theorem endpoint_stream_data_within_limit {role : Role} {lb lu pb pu : Nat} {win : Windows} {k : CtrlSt} {e0 : Endpoint}
+    (h0 : Endpoint.new role lb lu pb pu win k = some e0 ∨ Endpoint.newLate role lb lu pb pu win k = some e0)
+    (ops : List EOp) (s : Nat) (h : RecvHalf) (hl : lookup (e0.run ops).inputs s = some h) :
+    h.Bnd ∧ h.buf.largest ≤ h.msd := by
+  obtain ⟨p, hp, rfl⟩ := lookup_mem hl
+  have hi : InAll RecvHalf.Bnd e0 := by
+    intro q hq
+    have := Endpoint.live_new h0
+    have hnil : e0.inputs = [] := by
+      rcases h0 with h0 | h0
+      · unfold Endpoint.new at h0
+        split at h0
+        · cases h0
+        · split at h0
+          · cases h0
+          · simp only [Option.some.injEq] at h0; subst h0; rfl
+      · unfold Endpoint.newLate at h0
+        split at h0
+        · cases h0
+        · simp only [Option.some.injEq] at h0; subst h0; rfl
+    rw [hnil] at hq; cases hq
+  have hb := Endpoint.all_run (P := RecvHalf.Bnd) RecvHalf.bnd_mk0
+    (fun h off len fin hb => (RecvHalf.rx_bnd h off len fin hb).1) e0 ops hi p hp
+  exact ⟨hb, hb.le_msd⟩
 
 -- non-vacuity: a server endpoint after a frame on stream 4 (implicitly opens 0 and 4) and the complete stream 0 (5 bytes + FIN):
 -- stream 4 is still looked up (the theorems apply to it), the finished stream 0 has LEFT the input set (why `InLive` holds)
